@@ -103,8 +103,9 @@ TYPED_ZOO = {
     "bool": ["true", "false", "int_subclass"],
     "str": ["str_subclass", "str_surrogate", "str_nul", "str_long", "empty_str"],
     "bytes": ["bytes_subclass", "bytes_long", "bytearray", "memoryview"],
-    "list": ["list_subclass", "list_nested", "empty_list", "tuple", "range"],
-    "dict": ["dict_subclass", "ordereddict", "defaultdict", "dict_nonstr_keys", "empty_dict", "dict_twin_nan_keys"],
+    "list": ["list_subclass", "list_nested", "empty_list", "tuple", "range", "list_1001_strs", "userlist"],
+    "dict": ["dict_subclass", "ordereddict", "defaultdict", "dict_nonstr_keys", "empty_dict", "dict_twin_nan_keys",
+             "dict_1001_keys", "mappingproxy", "userdict", "chainmap"],
     "uuid4": ["uuid1", "uuid3", "uuid5", "uuid_nil", "uuid4"],
     "datetime": ["datetime_aware", "datetime_naive", "datetime_min", "datetime_max", "date_max", "time"],
     "date": ["datetime_naive", "datetime_aware", "date_min", "date_max", "datetime_max"],
@@ -259,6 +260,9 @@ def _gen_float(draw, spec, mut):
         if "value" in spec:
             step = 3 * 10.0 ** -(p if p is not None else 4)
             cands += [v + step, v - step, math.nextafter(v, math.inf), v * (1 + 1e-13)]
+            if p is not None:
+                # different numbers that are the same at the declared precision
+                cands += [v + step / 10, v - step / 10, v + step / 20, v - step / 20, round(v, p)]
         if lo is not None and not math.isinf(lo):
             cands += [math.nextafter(lo, -math.inf), lo - 1.0, lo]
         if hi is not None and not math.isinf(hi):
@@ -578,6 +582,11 @@ def _step(draw, x):
     if isinstance(x, str):
         i = draw(st.integers(0, len(x)))
         alt = [x + "a", x[:i] + "Ж" + x[i:], x.encode("utf-8"), None, list(x), x + " "]
+        import unicodedata
+        for form in ("NFD", "NFC", "NFKC"):
+            y = unicodedata.normalize(form, x)
+            if y != x:
+                alt += [y, y]      # canonically equivalent, but a different string
         if x:
             alt += [x[:-1], x[1:], x[:i] + x[i + 1:] if i < len(x) else x[:-1], x.swapcase()
                     if x.swapcase() != x else x + "b"]
@@ -736,6 +745,14 @@ ZOO = {
     "bytes_long": lambda: b"\xff" * 100, "list_nested": lambda: [[[]]],
     "dict_nonstr_keys": lambda: {None: 1, (1, 2): 2, 1.5: 3, b"k": 4, frozenset(): 5},
     "empty_list": lambda: [], "empty_dict": lambda: {}, "empty_str": lambda: "",
+    "list_1001_strs": lambda: ["x"] * 1001,
+    "dict_1001_keys": lambda: {i: None for i in range(1001)},
+    "mappingproxy": lambda: __import__("types").MappingProxyType({"a": 1}),
+    "userdict": lambda: collections.UserDict({"a": 1}),
+    "chainmap": lambda: collections.ChainMap({"a": 1}),
+    "userlist": lambda: collections.UserList([1]),
+    "userstring": lambda: collections.UserString("ab"),
+    "re_compiled_icase": lambda: __import__("re").compile("AB", __import__("re").I),
     "dict_twin_nan_keys": lambda: {float("nan"): 1, float("nan"): 2, "a": 1},
     "list_twin_items": lambda: [2.5, 2.5, "x", "x"],
 }
